@@ -42,6 +42,15 @@ var Default = Probe
 
 // Probe reports what a target sees as one JSON line.
 func Probe(ctx context.Context) error {
+	return report(ctx, "probe", "")
+}
+
+// Probearg is Probe with one string argument: whatever word follows it on the command line.
+func Probearg(ctx context.Context, s string) error {
+	return report(ctx, "probearg", s)
+}
+
+func report(ctx context.Context, target, arg string) error {
 	cwd, _ := os.Getwd()
 	data, err := io.ReadAll(os.Stdin)
 	if err != nil {
@@ -60,6 +69,7 @@ func Probe(ctx context.Context) error {
 	log.Println("PROBE-LOG")
 	fmt.Fprintln(os.Stderr, "PROBE-ERR")
 	b, _ := json.Marshal(map[string]interface{}{
+		"target": target, "arg": base64.StdEncoding.EncodeToString([]byte(arg)),
 		"origin": origin, "cwd": cwd, "env": env, "built_os": builtOS(), "built_arch": builtArch(),
 		"verbose": mg.Verbose(), "debug": mg.Debug(), "gocmd": base64.StdEncoding.EncodeToString([]byte(mg.GoCmd())),
 		"stdin_len": len(data), "stdin_sha": hex.EncodeToString(sum[:]), "has_deadline": has, "remaining_ns": rem,
@@ -265,7 +275,7 @@ def payload(rng, kind):
 
 def gen_cfg(rng, klass, layout, gowrap, quick):
     c = {"klass": klass, "layout": layout, "v": None, "debug": None, "l": None, "h": None, "t": None, "gocmd": None,
-         "env": [], "dv": "none", "wv": "none", "stdin": "empty", "word": "probe", "off": None}
+         "env": [], "dv": "none", "wv": "none", "stdin": "empty", "word": "probe", "off": None, "dd": False, "B": [], "twords": None}
     env = {}
     if klass == "explicit-off":
         off = rng.choice(["list", "help", "t0", "tneg"])
@@ -368,6 +378,7 @@ def gen_cfg(rng, klass, layout, gowrap, quick):
     else:
         c["stdin"] = rng.choice(["empty", "empty", "text", "binary", "nl"] + ([] if quick and rng.random() < 0.8 else ["big"]))
         c["seed"] = rng.getrandbits(32)
+        gen_tail(rng, c, env, klass)
         if klass == "default":
             # no target word: the default target runs (and must read the caller's stdin like a named one)
             c["word"] = ""
@@ -382,6 +393,72 @@ def gen_cfg(rng, klass, layout, gowrap, quick):
                 env.pop(k, None)
     c["env"] = [[hx(k), hx(v)] for k, v in env.items()]
     return c
+
+
+B_RENDER = {"v": ["-v"], "v0": ["-v=false"], "vT": ["--v=T"], "l": ["-l"], "h": ["-h"], "x": ["-x"], "xx": ["--nosuch=1"],
+            "vj": ["-v=junk"], "tbad": ["-t", "xyz"], "tbad2": ["-t=1x"], "tmiss": ["-t"], "syn": ["-=x"], "help": ["--help"]}
+B_BAD = {"x", "xx", "vj", "tbad", "tbad2", "tmiss", "syn"}
+
+
+def render_b(B):
+    """the compiled program's own flags, as words"""
+    out = []
+    for it in B:
+        if it[0] == "t":
+            out += ["-t", it[1]] if it[2] == "sep" else ["-t=" + it[1]]
+        else:
+            out += B_RENDER[it[0]]
+    return out
+
+
+def gen_tail(rng, c, env, klass):
+    """what follows mage's own flags: [--] [flags of the compiled program] [target words]"""
+    c.update(dd=False, B=[], twords=None)
+    if klass != "dashdash":
+        r = rng.random()
+        if klass == "matrix" and r < 0.12:       # flag-like words behind the first target are words
+            c["twords"] = ["probearg", rng.choice(["--", "-v", "-l", "-t", "-h", "-x", "plain", "a=b", "-"])]
+        return
+    shape = rng.choice(["flags", "flags", "flags", "bad", "list", "help", "last", "behind-target", "twice", "row1", "row4", "helpflag"])
+    c["shape"] = shape
+    c["dd"] = True
+    for k in (b"MAGEFILE_LIST", b"MAGEFILE_HELP"):
+        env.pop(k, None)
+    target = rng.choice([["probe"], ["probe"], ["probearg", rng.choice(["x", "--", "-v"])]])
+    if shape == "flags":
+        B = []
+        if rng.random() < 0.6:
+            B.append([rng.choice(["v", "v0", "vT"])])
+        if rng.random() < 0.6:
+            B.append(["t", rng.choice(T_SPELL[rng.choice(DEADLINES)]), rng.choice(["sep", "eq"])])
+        if rng.random() < 0.25:
+            B.append([rng.choice(["v", "v0"])])        # a repeated flag: the last one wins
+        if rng.random() < 0.2:
+            B.append(["t", rng.choice(T_SPELL[rng.choice(DEADLINES)]), "sep"])
+        c.update(B=B, twords=target)
+    elif shape == "bad":
+        B = [[rng.choice(["v", "v0"])]] if rng.random() < 0.4 else []
+        B.insert(rng.choice([0, len(B)]), [rng.choice(sorted(B_BAD))])
+        c.update(B=B, twords=target)
+    elif shape == "list":
+        c.update(B=[["l"]], twords=rng.choice([[], ["probe"]]))
+    elif shape == "help":
+        c.update(B=[["h"]], twords=["probe"])
+    elif shape == "helpflag":
+        c.update(B=[["help"]], twords=["probe"])
+    elif shape == "last":                                # "--" is the last word: the default target runs
+        c.update(B=[], twords=[])
+        env.pop(b"MAGEFILE_IGNOREDEFAULT", None)
+    elif shape == "behind-target":                       # no leading "--": a "--" behind a target word is that target's argument
+        c.update(dd=False, B=[], twords=["probearg", "--"])
+    elif shape == "twice":                               # a second "--" is consumed by the compiled program
+        c.update(B=[], twords=["--"] + target)
+    elif shape == "row1":                                # mage -v=false -t 5m -- -v -t 1h probe
+        c.update(v="-v=false", t="5m", B=[["v"], ["t", "1h", "sep"]], twords=["probe"])
+    elif shape == "row4":                                # mage -- -t -5s probe
+        c.update(B=[["t", "-5s", "sep"]], twords=["probe"])
+    if c["twords"] and c["stdin"] == "empty":
+        c["stdin"] = rng.choice(["empty", "text"])
 
 
 def flag_bool(sp):
@@ -409,7 +486,8 @@ def observe(r, stdin_sent):
             kv = base64.b64decode(e)
             k, _, v = kv.partition(b"=")
             env[k] = v
-        o.update(mode="run", env=env, origin=js["origin"], built_os=js.get("built_os"), built_arch=js.get("built_arch"), cwd=os.path.realpath(js["cwd"]), verbose=js["verbose"], debug=js["debug"],
+        words = [js["target"].encode()] + ([base64.b64decode(js["arg"])] if js["target"] == "probearg" else [])
+        o.update(mode="run", words=words, env=env, origin=js["origin"], built_os=js.get("built_os"), built_arch=js.get("built_arch"), cwd=os.path.realpath(js["cwd"]), verbose=js["verbose"], debug=js["debug"],
                  gocmd=base64.b64decode(js["gocmd"]), stdout_on=where,
                  stderr_on="stderr" if re.search(rb"^PROBE-ERR\r?$", err, re.M) else ("stdout" if re.search(rb"^PROBE-ERR\r?$", out, re.M) else None),
                  verbose_log=bool(re.search(rb"^PROBE-LOG\r?$", err + b"\n" + out, re.M)),
@@ -428,7 +506,8 @@ def observe(r, stdin_sent):
     elif b"Usage:" in out:
         o.update(mode="help", text=out)
     elif b"[options] [target]" in out:
-        o.update(mode="usage", text=out)
+        # the flag package's error + usage, os.Exit(2): a rejected command line; the usage alone: -help / -h without a word
+        o.update(mode="rejected" if r["rc"] == 2 else "usage", text=out)
     return o
 
 
@@ -473,7 +552,10 @@ def run_cfg(cfg, proj, m, conv, gocache, rng_payload):
         lh.append("-l" if cfg["l"] else "-l=false")
     if cfg["h"] is not None:
         lh.append("-h" if cfg["h"] else "-h=false")
-    words = [cfg["word"]] if cfg["word"] else []
+    words = cfg["twords"] if cfg.get("twords") is not None else ([cfg["word"]] if cfg["word"] else [])
+    B = cfg.get("B") or []
+    tail_b = render_b(B) + words                                  # what the compiled program is handed
+    tail_m = (["--"] if cfg.get("dd") else []) + tail_b           # ... behind mage's own flags
     expect_cwd = os.path.realpath(os.path.join(cwd, wstr if wstr else (dstr if dstr else ".")))
     runs = []
     if cfg["word"] == "echo":
@@ -497,12 +579,20 @@ def run_cfg(cfg, proj, m, conv, gocache, rng_payload):
     stdin = payload(prng, cfg["stdin"])
     env_m = dict(base)
     env_m.update(own)
-    r = run_proc([m.bin] + args + lh + words, cwd, env_m, stdin=stdin)
+    r = run_proc([m.bin] + args + lh + tail_m, cwd, env_m, stdin=stdin)
     tns = conv["dur"].get(cfg["t"]) if cfg["t"] is not None else None
-    g_m = {"v": flag_bool(cfg["v"]), "debug": flag_bool(cfg["debug"]), "gocmd": cfg["gocmd"], "t": tns, "l": cfg["l"], "h": cfg["h"]}
-    g_b = {"v": flag_bool(cfg["v"]), "debug": None, "gocmd": None, "t": tns, "l": cfg["l"], "h": cfg["h"]}
-    g_v = {"v": None, "debug": None, "gocmd": None, "t": None, "l": None, "h": None}
-    runs.append({"route": "mage", "given": g_m, "argv": args + lh + words, "env": env_m, "own": own, "cwd": cwd, "dstr": dstr, "wstr": wstr, "obs": observe(r, stdin), "raw": r})
+    # the compiled program's own flags: on one command line the later flag wins
+    bv = [it[0] != "v0" for it in B if it[0] in ("v", "v0", "vT")]
+    bt = [conv["dur"].get(it[1]) for it in B if it[0] == "t"]
+    own_flags = {"v": bv[-1] if bv else None, "t": bt[-1] if bt else None, "l": True if any(it[0] == "l" for it in B) else None,
+                 "h": True if any(it[0] == "h" for it in B) else None}
+
+    def merged(g):
+        return dict(g, **{k: (own_flags[k] if own_flags[k] is not None else g[k]) for k in own_flags})
+    g_m = merged({"v": flag_bool(cfg["v"]), "debug": flag_bool(cfg["debug"]), "gocmd": cfg["gocmd"], "t": tns, "l": cfg["l"], "h": cfg["h"]})
+    g_b = merged({"v": flag_bool(cfg["v"]), "debug": None, "gocmd": None, "t": tns, "l": cfg["l"], "h": cfg["h"]})
+    g_v = merged({"v": None, "debug": None, "gocmd": None, "t": None, "l": None, "h": None})
+    runs.append({"route": "mage", "given": g_m, "argv": args + lh + tail_m, "env": env_m, "own": own, "cwd": cwd, "dstr": dstr, "wstr": wstr, "obs": observe(r, stdin), "raw": r})
     # the compiled binary, same options as its flags (-debug / -gocmd exist only as variables)
     own_b = dict(own)
     if cfg["debug"] is not None:
@@ -516,8 +606,8 @@ def run_cfg(cfg, proj, m, conv, gocache, rng_payload):
         bargs += ["-t", cfg["t"]]
     env_b = dict(base)
     env_b.update(own_b)
-    r = run_proc([proj.bin] + bargs + lh + words, expect_cwd, env_b, stdin=stdin)
-    runs.append({"route": "bin-flags", "given": g_b, "argv": bargs + lh + words, "env": env_b, "own": own_b, "cwd": expect_cwd, "obs": observe(r, stdin), "raw": r})
+    r = run_proc([proj.bin] + bargs + lh + tail_b, expect_cwd, env_b, stdin=stdin)
+    runs.append({"route": "bin-flags", "given": g_b, "argv": bargs + lh + tail_b, "env": env_b, "own": own_b, "cwd": expect_cwd, "obs": observe(r, stdin), "raw": r})
     # the compiled binary, the options as MAGEFILE_* variables
     own_v = dict(own_b)
     if cfg["v"] is not None:
@@ -530,9 +620,10 @@ def run_cfg(cfg, proj, m, conv, gocache, rng_payload):
         own_v[b"MAGEFILE_TIMEOUT"] = conv["durstr"][conv["dur"][cfg["t"]]].encode()
     env_v = dict(base)
     env_v.update(own_v)
-    r = run_proc([proj.bin] + words, expect_cwd, env_v, stdin=stdin)
-    runs.append({"route": "bin-vars", "given": g_v, "argv": words, "env": env_v, "own": own_v, "cwd": expect_cwd, "obs": observe(r, stdin), "raw": r})
-    return {"runs": runs, "expect_cwd": expect_cwd, "stdin": stdin, "base": base}
+    r = run_proc([proj.bin] + tail_b, expect_cwd, env_v, stdin=stdin)
+    runs.append({"route": "bin-vars", "given": g_v, "argv": tail_b, "env": env_v, "own": own_v, "cwd": expect_cwd, "obs": observe(r, stdin), "raw": r})
+    return {"runs": runs, "expect_cwd": expect_cwd, "stdin": stdin, "base": base, "words": words,
+            "expect_rejected": any(it[0] in B_BAD for it in B), "expect_usage": any(it[0] == "help" for it in B)}
 
 
 # ---------------------------------------------------------------- the oracle: the property sentence
@@ -597,13 +688,20 @@ def oracle(cfg, proj, res, conv):
         e_help = g["h"] if g["h"] is not None else var_true(given_env, b"MAGEFILE_HELP")
         o = r["obs"]
         tag = "[%s %s] " % (route, " ".join(r["argv"]))
+        if res["expect_rejected"] or res["expect_usage"]:
+            # a flag error among the compiled program's flags: status 2, usage, nothing runs - as on mage's own line;
+            # --help: the usage, status 0
+            want = ("rejected", 2) if res["expect_rejected"] else ("usage", 0)
+            if (o["mode"], o["rc"]) != want:
+                bad.append(("flag-error", tag + "the program did %r with status %d, the flags say %r with status %d" % (o["mode"], o["rc"], want[0], want[1])))
+            continue
         if o["rc"] != 0 and not (o.get("timeout") == -1):
             bad.append(("run-failed", tag + "exit %d, stderr: %r" % (o["rc"], r["raw"]["err_b"][-400:])))
             continue
         if o["mode"] == "unknown":
             bad.append(("run-failed", tag + "no probe line, listing or help in the output: %r / %r" % (r["raw"]["out_b"][-200:], r["raw"]["err_b"][-300:])))
             continue
-        nowords = not cfg["word"]
+        nowords = not res["words"]
         ignoredefault = var_true(given_env, b"MAGEFILE_IGNOREDEFAULT")
         if nowords:       # help without a word prints the usage; no word runs the default target (or lists when it is to be ignored)
             want_mode = "usage" if e_help else ("list" if (e_list or ignoredefault) else "run")
@@ -622,6 +720,10 @@ def oracle(cfg, proj, res, conv):
             bad.append((clause, tag + "deadline %r, -t / MAGEFILE_TIMEOUT say %r" % (o.get("timeout"), want_t)))
         if o.get("timeout") == -1:
             continue
+        # the words behind the flags reach the dispatcher as they are: the target named, its argument verbatim
+        want_words = [w.encode() for w in res["words"]] or [b"probe"]
+        if o["words"] != want_words:
+            bad.append(("words", tag + "the target that ran and its argument: %r, the command line says %r" % (o["words"], want_words)))
         # accessors report the effective values
         if o["verbose"] != e_verbose:
             bad.append(("accessor-verbose", tag + "mg.Verbose()=%r, effective %r" % (o["verbose"], e_verbose)))
@@ -660,7 +762,7 @@ def oracle(cfg, proj, res, conv):
         if "rc" in mo and (mo["rc"] != 0 or bo["rc"] != 0):
             continue
         diffs = []
-        for k in ("mode", "verbose", "verbose_log", "debug", "gocmd", "timeout", "text"):
+        for k in ("mode", "verbose", "verbose_log", "debug", "gocmd", "timeout", "text", "words"):
             if mo.get(k) != bo.get(k):
                 diffs.append((k, mo.get(k), bo.get(k)))
         if mo.get("env") is not None and bo.get("env") is not None:
